@@ -412,7 +412,11 @@ func runFuture(c *Case) *Obs {
 				case "waitctx":
 					sh.add("call-waitctx", t, cid)
 					x, err := f.WaitContext(ctx)
-					sh.add("ret-waitctx", t, x, err != nil)
+					if err != nil && err != ctx.Err() {
+						sh.add("ret-waitctx", t, x, "other:"+err.Error()) // not the context's error
+					} else {
+						sh.add("ret-waitctx", t, x, err != nil)
+					}
 				}
 			}()
 		case "release":
